@@ -17,6 +17,8 @@ from dfmon import anchors, verdict
 
 PY = "/venv/bin/python"
 WHEELS = "/opt/veriftools/wheels"
+# witnesses of violations; DFMON_REPLAY_DIR only redirects them for parallel development runs
+REPLAY_DIR = os.environ.get("DFMON_REPLAY_DIR") or os.path.join(dfmon.VERIF_ROOT, "replays")
 
 
 def ensure_deps():
@@ -188,7 +190,7 @@ def main(argv=None):
 
     if explicit is None:
         import glob
-        for old in glob.glob(os.path.join(dfmon.VERIF_ROOT, "replays", f"{prop}_{tier}_s{seed}_*.json")):
+        for old in glob.glob(os.path.join(REPLAY_DIR, f"{prop}_{tier}_s{seed}_*.json")):
             os.remove(old)
     tmpdir = tempfile.mkdtemp(prefix=f"dfmon_{prop}_")
     try:
@@ -243,14 +245,13 @@ def main(argv=None):
 
     replay_paths = []
     if unlisted:
-        os.makedirs(os.path.join(dfmon.VERIF_ROOT, "replays"), exist_ok=True)
+        os.makedirs(REPLAY_DIR, exist_ok=True)
         by_mon = collections.OrderedDict()
         for v in unlisted:
             by_mon.setdefault(v["monitor"], []).append(v)
         for mon, vs in list(by_mon.items())[:12]:
             safe = "".join(c if c.isalnum() else "_" for c in mon)
-            path = os.path.join(dfmon.VERIF_ROOT, "replays",
-                                f"{prop}_{tier}_s{seed}_{safe}.json")
+            path = os.path.join(REPLAY_DIR, f"{prop}_{tier}_s{seed}_{safe}.json")
             cases = sorted({v["case"] for v in vs if v.get("case") is not None})[:20]
             json.dump({"property": prop, "tier": tier, "seed": seed, "monitor": mon,
                        "cases": cases, "count": m["unlisted_counts"].get(mon, len(vs)),
